@@ -300,7 +300,7 @@ func genC02(rt *rapid.T) c02Case {
 	}
 	if c.OpenNotif == nil && rapid.IntRange(0, 3).Draw(rt, "withprev") == 0 { // (a refusing plugin would refuse the earlier sessions too)
 		for i, n := 0, rapid.IntRange(1, 2).Draw(rt, "nprev"); i < n; i++ {
-			c.Prev = append(c.Prev, world.PrevSession{Hold: pick[uint16](rt, "prevhold", 0, 3, 90, 180), End: pick(rt, "prevend", "fin", "cease", "cease+junk"), In: rapid.IntRange(0, 2).Draw(rt, "previn") == 0})
+			c.Prev = append(c.Prev, world.PrevSession{Hold: pick[uint16](rt, "prevhold", 0, 3, 90, 180), End: pick(rt, "prevend", "fin", "cease", "cease+junk", "handler-cease"), In: rapid.IntRange(0, 2).Draw(rt, "previn") == 0})
 		}
 	}
 	return c
